@@ -355,6 +355,44 @@ def body_wap(l1: str, l2: str, final_nl: bool) -> bool:
     return True
 
 
+# ------------------------------------------------------------------ C04.8 arbitrary bytes through the real handler chain
+
+REP_BYTES = [0x00, 0x0A, 0x0D, 0x20, 0x3C, 0x26, 0x41, 0x7F, 0x80, 0xBF, 0xC0, 0xC3, 0xE9, 0xF4, 0xF5, 0xFF]
+
+
+def body_bytes(p: int, html: bool, k: int, where: int, listing: bool) -> bool:
+    """A file with an arbitrary byte before / inside / after its <title> (or in a plain text file),
+    served by the real handler chain over MemVFS through each protocol: the document request is
+    answered with success and the body is the file's bytes; the listing of its directory succeeds
+    and names it (the HTML title handler reads the file to build the entry)."""
+    name = "f.html" if html else "f.txt"
+    b = bytes([k])
+    data = (b"<html>" + (b if where == 0 else b"") + b"<head><title>T" + (b if where == 1 else b"") + b"t</title></head>\n<body>x" + (b if where == 2 else b"") + b"</body></html>\n")
+    nodes = {"/": mv.Dir(["d"]), "/d": mv.Dir([name]), "/d/" + name: mv.File(data)}
+    cfg = dl.config()
+    vfs = mv.MemVFS(cfg, nodes)
+    dl.install_dir_env(vfs, 5000, dl.PickleStub())
+    hx.silence_logging()
+    w = hx.ListWriter()
+    try:
+        proto = dl.make_protocol(p, "/d" if listing else "/d/" + name, cfg, w)
+        try:
+            proto.handle()
+        except Exception as e:
+            raise hx.Violation("C04:request-failed:%s" % type(e).__name__, "%s %s byte 0x%02x at %d listing=%s: %r" % (dl.PROTO_NAMES[p], name, k, where, listing, e))
+    finally:
+        dl.restore_dir_env()
+    out = w.getvalue()
+    hx.reach()
+    if p in dl.OK_PREFIX:
+        hx.require(out.startswith(dl.OK_PREFIX[p]), "C04:error-status-for-a-regular-file", lambda: "%s %s byte 0x%02x at %d listing=%s: %r" % (dl.PROTO_NAMES[p], name, k, where, listing, out[:80]))
+    if listing:
+        hx.require(name.encode() in out, "C04:file-missing-from-listing", lambda: "%s %s byte 0x%02x: %r" % (dl.PROTO_NAMES[p], name, k, out[:200]))
+    elif p != 3:
+        hx.require(out.endswith(data) and (p != 0 or out == data), "C04:body-differs-from-file-bytes", lambda: "%s %s byte 0x%02x at %d: %r" % (dl.PROTO_NAMES[p], name, k, where, out[:200]))
+    return True
+
+
 def obligations(tier, seed):
     obs = [
         Ob(id="C04.1-copyto-invariant", body="vk.smt:fn_copyto_invariant", kind="fn", engine="SMT", twin=False, timeout=300,
@@ -376,6 +414,12 @@ def obligations(tier, seed):
            bounds="4 type answers x 3 encoding answers x preset type (symbolic)", functions=["GopherEntry.populatefromfs/guesstype"]),
     ]
     n = 2 if tier == "quick" else 3
+    for pk in (0, 2, 3, 4, 5, 6):
+        obs.append(Ob(id="C04.8-bytes[%s]" % dl.PROTO_NAMES[pk], body="harness.C04:body_bytes", sig="p: int, html: bool, k: int, where: int, listing: bool",
+                      pre=["p == %d" % pk, ("k in %r" % (REP_BYTES,)) if tier == "quick" else "0 <= k <= 255", "0 <= where <= 2"] + (["where == 1"] if tier == "quick" else []), timeout=300 if tier == "quick" else 1500,
+                      desc="%s: a text / HTML file with an arbitrary byte before, inside or after its <title>, through the real handler chain: document request succeeds with the file's bytes as body; the directory listing succeeds and names the file" % dl.PROTO_NAMES[pk],
+                      bounds="byte value %s, 3 positions%s, html/plain, document/listing (symbolic)" % ("from 16 class representatives (NUL, CR, LF, markup, ASCII, UTF-8 continuation/lead/invalid bytes)" if tier == "quick" else "0..255", " (quick: inside the title)" if tier == "quick" else ""),
+                      functions=["handlers.html.HTMLFileTitleHandler.getentry", "handlers.file.FileHandler.getentry/write", "HandlerMultiplexer.getHandler", "protocols.*.handle"]))
     obs.append(Ob(id="C04.6-wap", body="harness.C04:body_wap", sig="l1: str, l2: str, final_nl: bool",
                   pre=["len(l1) <= %d" % n, "len(l2) <= %d" % (1 if tier == "quick" else 2), "all(c in 'a <&' + chr(9) + chr(11) + chr(12) + chr(13) + chr(0x1c) + chr(0x85) for c in l1 + l2)"],
                   timeout=300 if tier == "quick" else 1200,
